@@ -23,9 +23,21 @@ REDIRECTION_DOMAINS_RE = re.compile(
 )
 YOUTUBE_REDIRECTION_RE = re.compile(r"youtube\.com(?::\d*)?/redirect/?\?", re.I)
 GOOGLE_REDIRECTION_RE = re.compile(r"/url/?\?")
-SURROUNDING_JUNK_RE = re.compile(
-    r"^[\s\x00-\x1f\x7f-\x9f]+|[\s\x00-\x1f\x7f-\x9f]+$", re.UNICODE
-)
+JUNK_CHAR_RE = re.compile(r"[\s\x00-\x1f\x7f-\x9f]", re.UNICODE)
+
+
+def strip_surrounding_junk(url):
+    # NOTE: only looking at both ends, the url can be very long
+    start = 0
+    end = len(url)
+
+    while start < end and JUNK_CHAR_RE.match(url[start]):
+        start += 1
+
+    while end > start and JUNK_CHAR_RE.match(url[end - 1]):
+        end -= 1
+
+    return url[start:end]
 
 
 def infer_redirection(url, recursive=True):
@@ -99,7 +111,7 @@ def infer_redirection_step(url):
                 # NOTE: an url without protocol would lose its host when joined
                 # NOTE: junk in front of the url would hide its protocol when joining
                 try:
-                    trimmed_url = SURROUNDING_JUNK_RE.sub("", url)
+                    trimmed_url = strip_surrounding_junk(url)
 
                     if PROTOCOL_RE.match(CONTROL_CHARS_RE.sub("", url).strip()):
                         target = urljoin(trimmed_url, potential_target)
